@@ -1,7 +1,7 @@
 //! non-revocation proofs (C10; the pairing-side part of C01/C07): a revocation key with known
 //! discrete logarithms lets the exponent-form model recompute every group element.
 use crate::fixtures::*;
-use crate::pres::{backend_str, cred_json, dec_of_hex, out_bool_json, PredSpec, ReqSpec};
+use crate::pres::{backend_str, cred_json, dec_of_hex, err_msg_s, out_bool_json, PredSpec, ReqSpec};
 use crate::reg::{g2p_canon, mode_str};
 use crate::rng::Rng;
 use crate::util::*;
@@ -497,6 +497,59 @@ fn gen_nr(thorough: bool, rng: &mut Rng) -> Result<(), String> {
                 emit_case(&format!("nr/{}/other-state", run), &rd, &rc, &req, &holders[hi], &p.proof, &p.ctape, &nonce, &valid0, &reg0, &r3, false, "other_registry_state", None);
             }
         }
+        // (r) reference prover for the non-revocation part: the MODEL proves (primary part by Model/Prover.lean, pairing
+        //     side in exponent form, randomness drawn here), the library verifies. m2~ also negative and zero: a prover
+        //     drawing masks from a signed range is legitimate, the verifier has to reduce m2-hat with the right sign
+        {
+            let h = &holders[0];
+            let mut vals: BTreeMap<String, String> = BTreeMap::new();
+            if let Some(av) = jv(&h.cred.values)["attrs_values"].as_object() {
+                for (k, v) in av {
+                    let inner = v.as_object().and_then(|o| o.values().next()).cloned().unwrap_or(Value::Null);
+                    let dec = inner["value"].as_str().or_else(|| inner.as_str()).unwrap_or("").to_string();
+                    vals.insert(k.clone(), dec);
+                }
+            }
+            let draw = |rng: &mut Rng, bits: usize| dec_of_hex(&rng.hex_bits(bits));
+            let rcred = jv(&h.cred.sig)["r_credential"].clone();
+            let kinds = ["positive m2~", "negative m2~", "m2~ = 0", "m2~ = -1", "short masks"];
+            for (k, kind) in kinds.iter().enumerate() {
+                if !thorough && k >= 3 && run > 0 { continue; }
+                let rq = if k % 2 == 0 { req.clone() } else { ReqSpec { revealed: vec![], predicates: vec![PredSpec { attr: "age".into(), ptype: "GE".into(), value: 18 }, PredSpec { attr: "height".into(), ptype: "LT".into(), value: 100000 }] } };
+                let mut m_tilde = BTreeMap::new();
+                for a in cd.attrs.iter().chain(cd.non_attrs.iter()) {
+                    if !rq.revealed.contains(a) && a != "master_secret" { m_tilde.insert(a.clone(), draw(rng, if k == 4 { 64 } else { 592 })); }
+                }
+                let common: BTreeMap<String, String> = [("master_secret".to_string(), draw(rng, 592))].into_iter().collect();
+                let mut ptapes = vec![];
+                for _ in &rq.predicates {
+                    let (mut r, mut ut, mut rt) = (BTreeMap::new(), BTreeMap::new(), BTreeMap::new());
+                    for i in 0..4 {
+                        r.insert(i.to_string(), draw(rng, 2128));
+                        ut.insert(i.to_string(), draw(rng, 592));
+                        rt.insert(i.to_string(), draw(rng, 672));
+                    }
+                    r.insert("DELTA".to_string(), draw(rng, 2128));
+                    rt.insert("DELTA".to_string(), draw(rng, 672));
+                    ptapes.push(json!({"r": r, "u_tilde": ut, "r_tilde": rt, "alpha_tilde": draw(rng, 2787)}));
+                }
+                let m2t = match k { 0 => draw(rng, 2432), 1 => format!("-{}", draw(rng, 2432)), 2 => "0".to_string(), 3 => "-1".to_string(), _ => draw(rng, 80) };
+                let ctape: Vec<String> = (0..7).map(|_| scalar(rng).0).collect();
+                let ttape: Vec<String> = (0..13).map(|_| scalar(rng).0).collect();
+                let nonce_dec = new_nonce().map_err(e)?.to_dec().unwrap_or_default();
+                let ctx = json!({"key": rd.exps, "x": rd.exps["x"], "sk": rd.exps["sk"], "gamma": rc.gamma_hex(), "L": l,
+                    "valid": valid1.iter().collect::<Vec<_>>(),
+                    "cred": {"i": h.idx, "m2": rcred["m2"], "vr2": rcred["vr_prime_prime"], "c": rcred["c"], "witness_valid": h.wview.iter().collect::<Vec<_>>()}});
+                emit(&json!({"id": format!("nr/{}/refprove-nr/{}", run, k), "op": "prove_nr",
+                    "in": {"backend": backend_str(), "mode": mode_str(), "pk": jv(&cd.pk)["p_key"], "sig": jv(&h.cred.sig)["p_credential"],
+                           "values": vals, "schema": cd.attrs, "non_schema": cd.non_attrs, "req": rq.to_json(), "common": common,
+                           "tape": {"r": draw(rng, 2128), "e_tilde": draw(rng, 456), "v_tilde": draw(rng, 3060), "m_tilde": m_tilde, "m2_tilde": m2t, "preds": ptapes},
+                           "nonce": nonce_dec, "nr": {"ctx": ctx, "ctape": ctape, "ttape": ttape}},
+                    "impl": {"exec": {"op": "verify_proof_nr", "in": {"pk": jv(&cd.pk), "def": "gvt_rev", "rev_key_pub": jv(&rc.key_pub), "rev_reg": jv(&reg1),
+                                       "req": rq.to_json(), "common": ["master_secret"], "nonce": nonce_dec}}, "expect_accept": true},
+                    "class": {"kind": "reference-prover-nr", "variant": kind, "npred": rq.predicates.len()}}));
+            }
+        }
         // (a') degenerate key: a G1 generator of the revocation key replaced by the identity, in the text form and in the
         //      byte form a binary format carries (the visitor takes a byte sequence inside JSON too). Either the key is
         //      refused, or two presentations made with it must still share no c-list entry (with htilde = 1 the
@@ -722,6 +775,45 @@ pub fn exec(op: &str, inp: &Value) -> Option<Result<Value, String>> {
                 }
                 g => Err(format!("bad group {}", g)),
             }
+        })()),
+        "genpow_text" => Some((|| {
+            let e = |x: Error| x.to_string();
+            let mut s = inp["exp"].as_str().unwrap_or("0").to_lowercase();
+            if s.len() % 2 == 1 { s.insert(0, '0'); }
+            let b = unhex(&s).ok_or("bad hex")?;
+            if b.len() > 32 { return Err("scalar too long".into()); }
+            let sc = vf::GroupOrderElement::from_bytes(&b).map_err(e)?;
+            match inp["group"].as_str().unwrap_or("") {
+                "g1" => {
+                    let p = if sc.is_zero() { vf::PointG1::new_inf().map_err(e)? } else { vf::PointG1::new_generator().map_err(e)?.mul(&sc).map_err(e)? };
+                    Ok(json!(p.to_string().map_err(e)?))
+                }
+                "g2" => Ok(json!(vf::PointG2::new_generator().map_err(e)?.mul(&sc).map_err(e)?.to_string().map_err(e)?)),
+                g => Err(format!("bad group {}", g)),
+            }
+        })()),
+        "verify_proof_nr" => Some((|| {
+            let cd = load_fixture(inp["def"].as_str().unwrap_or(""))?;
+            let pk: CredentialPublicKey = from_jv(&inp["pk"])?;
+            let kp: RevocationKeyPublic = from_jv(&inp["rev_key_pub"])?;
+            let reg: RevocationRegistry = from_jv(&inp["rev_reg"])?;
+            let revealed: Vec<String> = from_jv(&inp["req"]["revealed"])?;
+            let predicates: Vec<PredSpec> = inp["req"]["predicates"].as_array().map(|a| a.iter().map(|p| PredSpec {
+                attr: p["attr_name"].as_str().unwrap_or("").to_string(), ptype: p["p_type"].as_str().unwrap_or("").to_string(),
+                value: p["value"].as_i64().unwrap_or(0) as i32 }).collect()).unwrap_or_default();
+            let req = ReqSpec { revealed, predicates };
+            let common: Vec<String> = from_jv(&inp["common"])?;
+            let nonce = bn::BigNumber::from_dec(inp["nonce"].as_str().unwrap_or("")).map_err(|e| e.to_string())?;
+            let res: Out<bool> = match from_jv::<Proof>(&inp["proof"]) {
+                Ok(p) => guard(|| {
+                    let mut pv = Verifier::new_proof_verifier()?;
+                    for a in &common { pv.add_common_attribute(a)?; }
+                    pv.add_sub_proof_request(&req.build().map_err(|e| err_msg_s(&e))?, &cd.schema, &cd.non_schema, &pk, Some(&kp), Some(&reg))?;
+                    pv.verify(&p, &nonce)
+                }),
+                Err(e) => Out::Err(format!("decode: {}", e)),
+            };
+            Ok(out_bool_json(&res))
         })()),
         _ => None,
     }
